@@ -19,6 +19,9 @@ class Inconclusive(Exception):
     pass
 
 
+GLOBALS = {}   # immutable constant cells shared by all paths (promoted temporaries)
+
+
 class Frame:
     __slots__ = ('fn', 'id', 'bb', 'visits', 'dest', 'ret_bb', 'post', 'caller')
 
@@ -256,6 +259,10 @@ class Exec:
         from . import models
         self.models = models.REGISTRY
         self.max_depth = 24
+        self.cut_loops = []         # (fn-name suffix, bb): loop heads closed by induction
+        self.summarize = True
+        self._no_summary = set()
+        self._summ_depth = 0
         self.retry_timeout_ms = 300000
 
     # ------------------------------------------------------------------ solver
@@ -301,14 +308,44 @@ class Exec:
         ok, _ = self.check(p.pcs + [c])
         return ok
 
-    def concretize(self, model, st=None):
+    def concretize(self, model, p=None):
         out = {}
+        st = p.st if p is not None else None
         for name, v in self.inputs.items():
             try:
                 out[name] = self.concrete_value(model, v, st)
             except Exception as e:  # pragma: no cover
                 out[name] = 'unprintable: %s' % e
+        if p is not None:
+            if 'opens' in p.ghost:
+                opens = []
+                for ent in p.ghost['opens']:
+                    if ent[0] == 'fail':
+                        opens.append(None)
+                    else:
+                        n = model.eval(ent[2], model_completion=True).as_long()
+                        opens.append([model.eval(z3.Select(ent[1], bv64(i)), model_completion=True).as_long() for i in range(min(n, 4096))])
+                out['#opens'] = opens
+            for k, v in p.ghost.items():
+                if k.startswith('in:'):
+                    try:
+                        out[k[3:]] = self.concrete_value(model, v, st)
+                    except Exception as e:  # pragma: no cover
+                        out[k[3:]] = 'unprintable: %s' % e
+            for k, term in getattr(self, 'clock', {}).items():
+                out['#clock_' + k] = model.eval(term, model_completion=True).as_long()
         return out
+
+    def small_model(self, conds, model):
+        """prefer a counterexample with short buffers (easier to read and to replay)"""
+        lens = [v.len for v in self.inputs.values() if isinstance(v, Buf) and not z3.is_bv_value(v.len)]
+        if not lens:
+            return model
+        for bound in (64, 1024):
+            ok, m2 = self.check(list(conds) + [z3.ULE(l, bv64(bound)) for l in lens])
+            if ok:
+                return m2
+        return model
 
     def concrete_value(self, model, v, st=None, cap=4096):
         if isinstance(v, tuple):
@@ -351,7 +388,8 @@ class Exec:
         if not sat:
             self.stats.discharged += 1
         else:
-            v = Violation(kind, msg, site, self.concretize(model, p.st), site.split('@')[0])
+            model = self.small_model(p.pcs + [z3.Not(c)], model)
+            v = Violation(kind, msg, site, self.concretize(model, p), site.split('@')[0])
             if self.violation_filter is None or self.violation_filter(v, p):
                 self.violations.append(v)
         p.pcs.append(c)
@@ -371,6 +409,10 @@ class Exec:
         key = (path, fn.crate)
         if key in self.const_cache:
             return self.const_cache[key]
+        if 'UTerm' in path:
+            v = self.std_const(path)
+            self.const_cache[key] = v
+            return v
         name = strip_generics(path)
         cands = self.prog.consts_by_name.get(name)
         if not cands:
@@ -410,6 +452,11 @@ class Exec:
             else:
                 val = (1 << w) - 1 if what == 'MAX' else 0
             return (bvv(val, w), ty)
+        if name.endswith('::USIZE') or name.endswith('::U64') or name.endswith('::U32') or name.endswith('::U8'):
+            from .crypto import typenum
+            v = typenum(name)
+            if v is not None and 'UTerm' in name:
+                return (bv64(v), 'usize')
         return Opaque('unknown const ' + name)
 
     def eval_const_fn(self, cfn):
@@ -420,7 +467,14 @@ class Exec:
         done = [r for r in res if r.status == 'return']
         if len(done) != 1:
             return Opaque('const body with %d paths' % len(done))
-        return done[0].ret
+        ret = done[0].ret
+        if isinstance(ret, Ref):
+            # reference to the body's own local: park the value in a global cell
+            val = sub.deref_all(done[0].st, ret)
+            key = '#const%d' % (len(GLOBALS) + 1)
+            GLOBALS[key] = val
+            return Ref(key, ())
+        return ret
 
     def literal(self, s, fn=None, ty=None):
         s = s.strip()
@@ -447,6 +501,8 @@ class Exec:
         m = re.match(r"^b'(.)'$", s)
         if m:
             return (bvv(ord(m.group(1)), 8), 'u8')
+        if s.startswith('ZeroSized: {closure@'):
+            return Agg('closure', (), s[len('ZeroSized: '):])
         if s.startswith('ZeroSized') or s.startswith('std::marker::PhantomData') or s.startswith('PhantomData'):
             return Agg('zst', (), s)
         return None
@@ -461,24 +517,23 @@ class Exec:
         return self.const_cache[key]
 
     def promoted(self, fn, s):
-        """`const path::promoted[k]`: evaluate the promoted body from the same crate"""
-        key = ('promoted', s, fn.crate)
+        """`const path::promoted[k]`: evaluate the promoted body that follows the referencing function in the same dump"""
+        key = ('promoted', s, fn.crate, fn.name)
         if key in self.const_cache:
             return self.const_cache[key]
-        name = strip_generics(s)
-        cands = self.prog.consts_by_name.get(name) or [c for c in self.prog.consts if c[0].endswith(name) or name.endswith(c[0])]
-        cands = [c for c in cands if c[4] == fn.crate] or cands
+        k = re.search(r'promoted\[(\d+)\]$', s).group(0)
+        fn_last = fn.name.split('::')[-1]
+        cands = [c for c in self.prog.consts_by_name.get(k, []) if c[4] == fn.crate and (c[0].endswith('::' + fn_last + '::' + k))]
+        if not cands:
+            meth = strip_generics(s).split('::')[-2]
+            cands = [c for c in self.prog.consts_by_name.get(k, []) if c[4] == fn.crate and c[0].endswith('::' + meth + '::' + k)]
         v = Opaque('promoted ' + s)
         if cands:
             c = min(cands, key=lambda c: abs(c[3] - fn.line))
             if isinstance(c[2], str):
                 v = self.literal(c[2], fn, c[1]) or v
             else:
-                body = self.eval_const_fn(c[2])
-                if not isinstance(body, Opaque):
-                    # promoteds have reference type: park the value in a global cell
-                    self.const_cache[key] = body
-                    return body
+                v = self.eval_const_fn(c[2])
         self.const_cache[key] = v
         return v
 
@@ -506,6 +561,8 @@ class Exec:
 
     def load(self, st, base, proj=()):
         if base not in st:
+            if base in GLOBALS:
+                return self.project(st, GLOBALS[base], proj)
             raise Inconclusive('read of uninitialised ' + base)
         return self.project(st, st[base], proj)
 
@@ -781,6 +838,8 @@ class Exec:
                     # function item / zero-sized constant
                     return Agg('fnitem', (), c)
             return v
+        if re.match(r'^[A-Za-z_<]', s) and '::' in s:
+            return Agg('fnitem', (), s)
         raise Inconclusive('operand ' + s)
 
     def binop(self, op, a, b):
@@ -1166,6 +1225,12 @@ class Exec:
         while True:
             fr = p.frames[-1]
             fr.visits[fr.bb] = fr.visits.get(fr.bb, 0) + 1
+            if fr.visits[fr.bb] == 2 and self.cut_loops and any(fr.fn.name.endswith(k) and fr.bb == bb for k, bb in self.cut_loops):
+                # induction over loop iterations: the state at this loop head is an instance of the arbitrary state the
+                # exploration started from (stated per job), so the continuation is already covered
+                p.status = 'cut'
+                p.note = '%s:%s' % (fr.fn.name, fr.bb)
+                return
             if fr.visits[fr.bb] > self.unroll_limit(fr.fn):
                 p.status = 'unwound'
                 p.note = '%s:%s' % (fr.fn.name, fr.bb)
@@ -1294,13 +1359,13 @@ class Exec:
         p.frames.pop()
         if fr.post is not None:
             ret = fr.post(self, p, ret)
-        # drop the callee's locals
-        for k in [k for k in p.st if k.startswith(pfx)]:
-            del p.st[k]
         if not p.frames:
             p.status = 'return'
             p.ret = ret
             return 'END'
+        # drop the callee's locals
+        for k in [k for k in p.st if k.startswith(pfx)]:
+            del p.st[k]
         caller = p.frames[-1]
         if fr.dest is not None:
             b, proj = self.place(caller, fr.dest)
@@ -1321,8 +1386,12 @@ class Exec:
         if outs is None:
             # inline a repo function
             callee = self.prog.resolve(func, fr.fn.crate)
-            self.new_frame(p, callee, args, dest, ret_bb)
-            return 'CONT'
+            summ = self.try_summarize(p, callee, args)
+            if summ is not None:
+                outs = [dict(value=summ)]
+            else:
+                self.new_frame(p, callee, args, dest, ret_bb)
+                return 'CONT'
         feas = []
         for o in outs:
             c = z3.simplify(o.get('cond', T))
@@ -1356,7 +1425,8 @@ class Exec:
             v = Violation('panic', o['panic'], site, None, fr.fn.name)
             ok, model = self.check(q.pcs)
             if ok:
-                v.model = self.concretize(model, q.st)
+                model = self.small_model(q.pcs, model)
+                v.model = self.concretize(model, q)
                 if self.violation_filter is None or self.violation_filter(v, q):
                     self.violations.append(v)
             else:
@@ -1416,6 +1486,92 @@ class Exec:
 
     def arg_types_hint(self, fr, func):
         return func
+
+    # ---- summaries of pure scalar functions: explore in isolation, merge the returns with ite -------------
+    def try_summarize(self, p, callee, args):
+        if not self.summarize or callee.name in self._no_summary:
+            return None
+        if not all(_pure_arg(a) for a in args):
+            if not all(_pure_arg(a) or isinstance(a, Ref) for a in args):
+                return None
+            if any(('&mut' in pt or '*mut' in pt or 'Cell' in pt or 'Mutex' in pt) for _pn, pt in callee.params) or 'mut' in callee.ret:
+                return None
+        if len(callee.blocks) > 80 or len(p.frames) >= self.max_depth - 2:
+            return None
+        q = p.fork()
+        q.frames = []
+        q.nframe = p.nframe + 1000 * (len(p.frames) + 1)
+        saved_paths = self.stats.paths
+        try:
+            self.new_frame(q, callee, list(args))
+            self._summ_depth += 1
+            done = self.explore([q])
+        finally:
+            self._summ_depth -= 1
+        self.stats.paths = saved_paths
+        rets = []
+        for r in done:
+            if r.status == 'return':
+                extra = r.pcs[len(p.pcs):]
+                rets.append((z3.And(*extra) if extra else T, r.ret))
+            elif r.status in ('inconclusive', 'unwound'):
+                self._no_summary.add(callee.name)
+                return None
+        if not rets:
+            return None
+        try:
+            return merge_values(rets)
+        except _NoMerge:
+            self._no_summary.add(callee.name)
+            return None
+
+
+class _NoMerge(Exception):
+    pass
+
+
+def _pure_arg(a):
+    if isinstance(a, tuple):
+        return True
+    if isinstance(a, Enum):
+        return all(_pure_arg(f) for fs in a.payloads.values() for f in fs)
+    if isinstance(a, Agg) and a.kind in ('tuple', 'zst', 'fnitem'):
+        return all(_pure_arg(f) for f in a.fields)
+    return False
+
+
+def merge_values(rets):
+    """rets: [(cond, value)] with mutually exclusive conds covering the feasible cases -> one value"""
+    if len(rets) == 1:
+        return rets[0][1]
+    vals = [v for _c, v in rets]
+    if all(isinstance(v, Opaque) for v in vals):
+        return vals[0]
+    if all(isinstance(v, tuple) for v in vals):
+        if len(set(v[1] for v in vals)) != 1:
+            raise _NoMerge()
+        t = vals[-1][0]
+        for c, v in reversed(rets[:-1]):
+            t = z3.If(c, v[0], t)
+        return (z3.simplify(t), vals[0][1])
+    if all(isinstance(v, Enum) for v in vals):
+        d = vals[-1].disc
+        for c, v in reversed(rets[:-1]):
+            d = z3.If(c, v.disc, d)
+        payloads = {}
+        for var in set(k for v in vals for k in v.payloads):
+            sub = [(c, v.payloads[var]) for c, v in rets if var in v.payloads]
+            n = len(sub[0][1])
+            if any(len(fs) != n for _c, fs in sub):
+                raise _NoMerge()
+            payloads[var] = tuple(merge_values([(c, fs[i]) for c, fs in sub]) for i in range(n))
+        return Enum(z3.simplify(d), payloads, vals[0].ename)
+    if all(isinstance(v, Agg) for v in vals):
+        n = len(vals[0].fields)
+        if any(len(v.fields) != n or v.kind != vals[0].kind for v in vals):
+            raise _NoMerge()
+        return Agg(vals[0].kind, [merge_values([(c, v.fields[i]) for c, v in rets]) for i in range(n)], vals[0].name)
+    raise _NoMerge()
 
 
 def copy_into(dst_arr, dst_pos, src_arr, src_off, n):
